@@ -37,27 +37,27 @@ Proof.
   eexists. split; [exact Hg3|]. cbn. auto.
 Qed.
 
-Lemma follow_spec f : forall s o s' r,
-  Inv noex s -> Held s o -> follow f s o = (s', r) ->
-  Inv noex s' /\ conf s' = conf s /\ (supply s <= supply s')%N /\ forall o', r = Ok o' -> Held s' o'.
+Lemma follow_spec f : forall s o lk s' r,
+  Inv noex s -> Held s o -> follow f s o lk = (s', r) ->
+  Inv noex s' /\ conf s' = conf s /\ (supply s <= supply s')%N /\ forall o' lk', r = Ok (o', lk') -> Held s' o'.
 Proof.
-  induction f as [|f IH]; intros s o s' r HI HH; cbn [follow].
+  induction f as [|f IH]; intros s o lk s' r HI HH; cbn [follow].
   - destruct (hget s o) as [ob|].
     + destruct (r_ref (o_rec ob)); intros [= <- <-]; (split; [|split; [|split]]); auto; try lia.
-      * intros o' H; discriminate.
-      * intros o' [= <-]. exact HH.
-    + intros [= <- <-]; (split; [|split; [|split]]); auto; try lia. intros o' H; discriminate.
+      * intros o' lk' H; discriminate.
+      * intros o' lk' [= <- <-]. exact HH.
+    + intros [= <- <-]; (split; [|split; [|split]]); auto; try lia. intros o' lk' H; discriminate.
   - destruct (hget s o) as [ob|].
     + destruct (r_ref (o_rec ob)) as [target|].
       * destruct (cache_get s target) as [s1 r1] eqn:Hcg.
         destruct (cache_get_spec s target s1 r1 HI Hcg) as (HI1 & (Hc1 & Hu1 & _) & ro & -> & Hro).
         destruct ro as [o1|].
         -- destruct (Hro o1 eq_refl) as (HH1 & _). intro Hf.
-           destruct (IH s1 o1 s' r HI1 HH1 Hf) as (A & B & C & D).
+           destruct (IH s1 o1 target s' r HI1 HH1 Hf) as (A & B & C & D).
            split; [|split; [|split]]; auto; [congruence | lia].
-        -- intros [= <- <-]; (split; [|split; [|split]]); auto. intros o' H; discriminate.
-      * intros [= <- <-]; (split; [|split; [|split]]); auto; try lia. intros o' [= <-]. exact HH.
-    + intros [= <- <-]; (split; [|split; [|split]]); auto; try lia. intros o' H; discriminate.
+        -- intros [= <- <-]; (split; [|split; [|split]]); auto. intros o' lk' H; discriminate.
+      * intros [= <- <-]; (split; [|split; [|split]]); auto; try lia. intros o' lk' [= <- <-]. exact HH.
+    + intros [= <- <-]; (split; [|split; [|split]]); auto; try lia. intros o' lk' H; discriminate.
 Qed.
 
 Lemma hupd_Held_benign s o ob f :
@@ -138,10 +138,10 @@ Proof.
            ++ destruct (cache_delete_spec noex s1 k HI1) as (D1 & D2 & (D3 & D4 & _) & _).
               destruct (cache_delete s1 k) as [s2 ok]. cbn [fst snd] in *. subst ok.
               apply StartPost_err; auto; [congruence | lia].
-           ++ destruct (follow _ s1 o) as [s2 fr] eqn:Hf.
-              destruct (follow_spec _ s1 o s2 fr HI1 HH1 Hf) as (F1 & F2 & F3 & F4).
-              destruct fr as [o'|e|e].
-              ** apply bookkeeping_spec; auto; [congruence | lia].
+           ++ destruct (follow _ s1 o k) as [s2 fr] eqn:Hf.
+              destruct (follow_spec _ s1 o k s2 fr HI1 HH1 Hf) as (F1 & F2 & F3 & F4).
+              destruct fr as [[o' lk']|e|e].
+              ** apply bookkeeping_spec; eauto; [congruence | lia].
               ** apply StartPost_err; auto; [congruence | lia].
               ** apply StartPost_panic; auto; [congruence | lia].
         -- destruct (c_idexpiry (conf s) <=? since (r_created (o_rec ob)) (now s1))%Z.
